@@ -231,10 +231,29 @@ def check_case(ctx, c, pm):
             key_srpm = key_rpm = None
         want3 = [[key_srpm], [key_rpm]]
         ok = got3 == want3
+        if ok and not is_src and len(s) % 3 == 0:
+            # the same build under ANOTHER epoch is already registered in the cell (its source package first): the keys of
+            # the new entry are still the canonical spelling of exactly what was passed
+            ctx.count("rpms-add-next-to-other-epoch")
+            other = dict(srpm_c, epoch=str(int(c["epoch"]) + rng_free_int(s) % 3 + 1))
+            try:
+                r2 = Rpms()
+                r2.add("V", "x86_64", render(other), "p/other.src.rpm", None, "source")
+                r2.add("V", "x86_64", s, "p/x.rpm", None, "binary", render(srpm_c))
+                cell2 = r2.rpms["V"]["x86_64"]
+                got3 = dict((k, sorted(v.keys())) for k, v in cell2.items())
+            except Exception as e:
+                got3 = "raised %s: %s" % (type(e).__name__, e)
+            want3 = {canonical(other): [canonical(other)], key_srpm: [key_rpm]}
+            ok = got3 == want3
         ctx.monitor("rpms-add-key", fired=not ok)
         if not ok:
             ctx.violation("rpms-add-key", "Rpms.add files the package under canonical name-epoch:version-release.arch",
                           {"case": c, "string": s}, observed=got3, expected=want3)
+
+
+def rng_free_int(s):
+    return sum(ord(ch) for ch in s)
 
 
 def _pm():
